@@ -333,6 +333,13 @@ func cmdReplay(args []string) {
 	} else if !*quiet {
 		if res.Violation != nil {
 			fmt.Printf("replay: violation class=%s\n  %s\n", res.Violation.Class, res.Violation.Msg)
+			if db, err := json.MarshalIndent(res.Violation.Detail, "  ", " "); err == nil && res.Violation.Detail != nil {
+				d := string(db)
+				if len(d) > 6000 {
+					d = d[:6000] + "\n  ... (see the replay file)"
+				}
+				fmt.Printf("  %s\n", d)
+			}
 		} else {
 			fmt.Println("replay: no violation")
 		}
